@@ -9,7 +9,9 @@ namespace App
 theorem stakingEndBlock_St (s : App) (c : CSet) (m : St s) (k : Cm s c) (f : Fits2 s c) :
     ∃ ups s' c', s.stakingEndBlock = .ok (ups, s') ∧ Comet.applyChangeSet c ups = .ok c' ∧ Agree c' s' ∧ St s' ∧
       (∀ v ∈ s'.vals, ¬ Gone v) ∧ s'.pending = s.pending ∧ s'.updated = s.updated ∧ s'.params = s.params ∧
-      s'.height = s.height ∧ s'.time = s.time ∧ s'.infos = s.infos ∧ 0 ≤ s'.lastTotal ∧ s'.lastTotal ≤ maxTotalPower := by
+      s'.height = s.height ∧ s'.time = s.time ∧ s'.infos = s.infos ∧ 0 ≤ s'.lastTotal ∧ s'.lastTotal ≤ maxTotalPower ∧
+      (∀ o w, s'.getVal o = some w → ∃ v0, s.getVal o = some v0 ∧ (w = v0 ∨ (Gone v0 ∧ Unb w ∧ w.key = v0.key))) ∧
+      (∀ o v0, s.getVal o = some v0 → Active v0 → s'.getVal o = some v0) := by
   obtain ⟨hp, hx, _⟩ := pre_of_St s c m k f
   obtain ⟨a, u, hl, hu, hF, _⟩ := loops_total s c hp
   have hmem : ∀ op v, s.getVal op = some v → v ∈ s.vals := fun op v h => mem_of_getVal s op v h
@@ -92,14 +94,14 @@ theorem stakingEndBlock_St (s : App) (c : CSet) (m : St s) (k : Cm s c) (f : Fit
     rw [heo] at hv
     exact ⟨v, hv, hu'⟩
   have hqn : (({ x2 with lastTotal := T } : App).ubq.flatMap (·.2)).Nodup := by rw [← entries_ops]; exact m3.qNodup
-  obtain ⟨s4, h4, m4, f4, sr4, _⟩ := matureSlots_St _ _ m3 hq3 hqn
+  obtain ⟨s4, h4, m4, f4, k4, sr4, _⟩ := matureSlots_St _ _ m3 hq3 hqn
   have he : s.stakingEndBlock = .ok (ups2, s4) := by
     unfold stakingEndBlock
     rw [h1]
     simp only
     have : ({ x2 with lastTotal := T } : App).unbondMature = .ok s4 := h4
     rw [this]
-  refine ⟨ups2, s4, c', he, hc, stakingEndBlock_agree s s4 c c' ups2 hp he hc, m4, ?_, ?_, ?_, ?_, ?_, ?_, ?_, ?_, ?_⟩
+  refine ⟨ups2, s4, c', he, hc, stakingEndBlock_agree s s4 c c' ups2 hp he hc, m4, ?_, ?_, ?_, ?_, ?_, ?_, ?_, ?_, ?_, ?_, ?_⟩
   · intro y hy hgy
     have hgy4 := mem_vals_getVal s4 m4.sorted y hy
     have h3 : ({ x2 with lastTotal := T } : App).getVal y.op = some y := by
@@ -108,7 +110,7 @@ theorem stakingEndBlock_St (s : App) (c : CSet) (m : St s) (k : Cm s c) (f : Fit
       · rw [e] at hgy4; cases hgy4
     have h3' : x2.getVal y.op = some y := by rw [← h3]; exact getVal_congr _ _ rfl _
     by_cases hin : y.op ∈ a.last.map (·.1)
-    · obtain ⟨w, hw, hwu⟩ := u2 y.op hin
+    · obtain ⟨w, hw, hwu, _⟩ := u2 y.op hin
       rw [h3'] at hw; injection hw with hw
       rw [← hw] at hwu
       exact gone_not_unb y hgy hwu
@@ -126,6 +128,39 @@ theorem stakingEndBlock_St (s : App) (c : CSet) (m : St s) (k : Cm s c) (f : Fit
   · rw [sr4.infos]; show x2.infos = s.infos; rw [sr2.infos, hL]
   · rw [sr4.lastTotal]; exact hT0
   · rw [sr4.lastTotal]; exact hT1
+  · intro o w hw
+    have h3 : ({ x2 with lastTotal := T } : App).getVal o = some w := by
+      rcases f4 o with e | e
+      · rw [← e]; exact hw
+      · rw [e] at hw; cases hw
+    have h3' : x2.getVal o = some w := by rw [← h3]; exact getVal_congr _ _ rfl _
+    by_cases hin : o ∈ a.last.map (·.1)
+    · obtain ⟨e, he1, heo⟩ := List.mem_map.mp hin
+      obtain ⟨v0, hv0, hg0⟩ := hgl e he1
+      rw [heo, hgetA] at hv0
+      obtain ⟨w', hw', hwu', hwk'⟩ := u2 o hin
+      rw [h3'] at hw'; injection hw' with hw'
+      refine ⟨v0, hv0, Or.inr ⟨hg0, by rw [hw']; exact hwu', ?_⟩⟩
+      rw [hw']; exact hwk' v0 (by rw [hgetA]; exact hv0)
+    · rw [f2 o hin, hgetA] at h3'
+      exact ⟨w, h3', Or.inl rfl⟩
+  · intro o v0 hv0 ha0
+    have hv0m := hmem _ _ hv0
+    have hvop0 := getVal_op _ _ _ hv0
+    have hnin : o ∉ a.last.map (·.1) := by
+      intro hin
+      obtain ⟨hnv, _⟩ := (mem_remaining s c hp a hF o).mp hin
+      have := visited_of_active s m v0 hv0m ha0
+      rw [hvop0, hnv] at this; cases this
+    have h2' : x2.getVal o = some v0 := by rw [f2 o hnin, hgetA]; exact hv0
+    have h3 : ({ x2 with lastTotal := T } : App).getVal o = some v0 := by rw [← h2']; exact getVal_congr _ _ rfl _
+    have hnq : o ∉ ({ x2 with lastTotal := T } : App).ubq.flatMap (·.2) := by
+      intro hin
+      obtain ⟨w, hw, hwu⟩ := hq3 o hin
+      rw [h3] at hw; injection hw with hw
+      rw [← hw] at hwu
+      exact active_not_unb v0 ha0 hwu
+    rw [k4 o hnq]; exact h3
 
 end App
 end PoaVerif
